@@ -3,6 +3,7 @@ package checks
 import (
 	"errors"
 	"fmt"
+	"sync"
 
 	"github.com/indexsupply/shovel/shovel"
 
@@ -592,9 +593,32 @@ func c06SharedCase(c *vk.Case) {
 	detail := func() map[string]any {
 		return merge(me.detail(), map[string]any{"start": start, "stop": stop, "batch": batch, "with_dependency": withDep})
 	}
+	// half of the cases: the unbounded integration's very first segment download fails once (the segment it asked for
+	// stays behind unfilled), the bounded one steps next over the same first block
+	failFirst := r.Bool()
+	if failFirst {
+		var fmu sync.Mutex
+		armed := true
+		node.SetHook(func(info *simnode.ReqInfo) simnode.Action {
+			fmu.Lock()
+			defer fmu.Unlock()
+			act := simnode.Action{ElemErr: -1}
+			if armed && !info.Poller && info.Batch && len(info.Calls) > 0 && info.Calls[0].Method == "eth_getBlockByNumber" && info.Calls[0].BlockArg != "latest" {
+				armed = false
+				act.Fail, act.Status = simnode.FailHTTP, 503
+				c.Obs("first_segment_download_failed", 1)
+			}
+			return act
+		})
+		defer node.SetHook(nil)
+	}
 	for round := 0; round < 40 && len(c.Res.Violations) == 0; round++ {
 		// the unbounded integration runs ahead (and fills the segment cache), then the bounded one
-		for k := 0; k < r.Range(1, 3); k++ {
+		na := r.Range(1, 3)
+		if failFirst && round == 0 {
+			na = 1 // its one step fails; the bounded integration is next
+		}
+		for k := 0; k < na; k++ {
 			me.stepSeq(pa, false)
 		}
 		if round == lateRound {
